@@ -625,12 +625,11 @@ class CrossClassRejected(L1):
 
     def shapes(self, tier):
         from qlasskit.types import Qfixed1_2, Qfixed2_2
-        own = {QintImp: Qint4, QfixedImp: Qfixed2_2, Qchar: Qchar}[self.owner]
-        others = [t for t in (Qint4, Qfixed1_2, Qchar) if not (issubclass(t, self.owner) or (self.owner is QintImp and issubclass(t, QintImp)))]
-        out = []
-        for o in others:
-            out.append((own, o))
-        return out
+        own = {QintImp: Qint4, QfixedImp: Qfixed2_2}[self.owner]
+        others = [t for t in (Qint4, Qfixed1_2, Qchar, bool) if not (t is not bool and issubclass(t, self.owner))]
+        if self.owner is QintImp and self.op in ("eq", "neq"):
+            others = [t for t in others if t is not Qchar]        # Qint == Qchar is ord(c) == n: under the CharIntEq contract
+        return [(own, o) for o in others] + ([(o, own) for o in others if o is not bool and self.op in ("add", "sub", "mul")] if False else [])
 
     def instantiate(self, shape, vc):
         TL, TR = shape
@@ -672,4 +671,7 @@ def all_contracts():
     cs.append(SameWidthEq(Qchar, "neq", Qchar))
     cs.append(SameWidthEq(Qbool, "eq", bool))
     cs.append(SameWidthEq(Qbool, "neq", bool))
+    for owner in (QintImp, QfixedImp):
+        for op in ("add", "sub", "mul", "eq", "neq", "gt", "lt", "gte", "lte") + (("bitwise_and", "bitwise_or", "bitwise_xor", "mod") if owner is QintImp else ()):
+            cs.append(CrossClassRejected(owner, op))
     return cs
